@@ -37,7 +37,8 @@ def make_module(rng, nf):
             body = [["local.get", 0], ["call", 1 + (k + 1) % nf if (k + 1) % nf % 5 == 0 else 1], ["i32.const", b32(3)], ["i32.mul"], ["end"]]
         else:
             body = [["local.get", 0], ["i32.const", b32(7)], ["i32.xor"], ["end"]]      # identical bodies for every kind-4 function
-        funcs.append({"type": 0, "locals": [["i32", 1]] if kind == 1 else [], "body": body})
+        funcs.append({"type": 0, "locals": [[], [["i32", 1]], [["i32", 1], ["i64", 2]], [["f64", 1], ["i32", 2], ["i64", 1]]][(k // 5 + kind) % 4] if kind not in (1, 4)
+                      else [["i32", 1]], "body": body})
     m = {"types": types, "imports": [{"mod": "env", "name": "note", "kind": "func", "type": 1, "ret": []}], "funcs": funcs,
          "memory": {"min": 1, "max": 2},
          "data": [{"mode": "active", "offset": ["i32.const", b32(300)], "bytes": [9, 8, 7]}, {"mode": "passive", "bytes": [0x11, 0x22, 0x33, 0x44, 0x55]}],
@@ -48,11 +49,28 @@ def make_module(rng, nf):
     return m
 
 
+TAIL_SWAP = {"i32.add": "i32.sub", "i32.xor": "i32.or", "i32.mul": "i32.and"}
+
+
 def ref_module(m, rng, share):
+    """The reference differs from the module in the functions outside `share`, each in one of four places: at the
+    head of the body, in its last opcode, only in the locals declarations, or only by one trailing nop."""
     r = dict(m, funcs=[dict(f) for f in m["funcs"]])
+    salt = rng.randrange(4)
     for k, f in enumerate(r["funcs"]):
-        if k not in share:
-            r["funcs"][k] = dict(f, body=[["i32.const", b32(77000 + k)], ["drop"]] + f["body"])
+        if k in share:
+            continue
+        how = (k + salt) % 4
+        body = [list(i) for i in f["body"]]
+        if how == 1 and body[-2][0] in TAIL_SWAP:
+            body[-2] = [TAIL_SWAP[body[-2][0]]]
+            r["funcs"][k] = dict(f, body=body)
+        elif how == 2:
+            r["funcs"][k] = dict(f, locals=list(f.get("locals", [])) + [["i64", 1]])
+        elif how == 3:
+            r["funcs"][k] = dict(f, body=body[:-1] + [["nop"], ["end"]])
+        else:
+            r["funcs"][k] = dict(f, body=[["i32.const", b32(77000 + k)], ["drop"]] + body)
     return r
 
 
@@ -117,7 +135,7 @@ def main():
         mod = make_module(rng, nf)
         wasm = os.path.join(wd, "pool.wasm")
         open(wasm, "wb").write(wasm_encode.encode(machine.enc_module(mod)))
-        runs = [(t, f, s) for t in (1, 2, 3, 7) for f in (1, 2, 3) for s in range(4 if tier == "quick" else 60)]
+        runs = [(t, f, s) for t in (1, 2, 3, 7) for f in (1, 2, 3) for s in range(8 if tier == "quick" else 80)]
         groups = {}
 
         def trace_one(j):
@@ -125,7 +143,7 @@ def main():
             d = os.path.join(wd, "tr%d" % j)
             os.makedirs(d)
             tf = os.path.join(d, "trace.ndjson")
-            rc, so, se = run([traced, "-t", str(t), "-f", str(f), wasm, "out.c"], cwd=d, timeout=120,
+            rc, so, se = run([traced, "-t", str(t), "-f", str(f), wasm, "out.c"], cwd=d, timeout=20,
                              env={"POOL_TRACE": tf, "POOL_SEED": str(SEED * 1000 + j)})
             ss = pooltrace.sessions(tf) if os.path.exists(tf) else []
             shutil.rmtree(d, ignore_errors=True)
@@ -134,7 +152,7 @@ def main():
             t, f, s = runs[j]
             nfiles = 1 + (nf - 1) // f
             if rc != 0:
-                v.deviation("pool:run-failed", {"run": runs[j], "rc": rc, "stderr": se[-500:]})
+                v.deviation("pool:hang" if rc == -999 else "pool:run-failed", {"run": runs[j], "rc": rc, "stderr": se[-500:]})
                 continue
             if f < nf and not ss:
                 v.deviation("pool:no-session", {"run": runs[j]})
@@ -159,7 +177,8 @@ def main():
             ttrans += st_["transitions"]
             for idx, at in rejected:
                 v.deviation("pool:trace-rejected", {"workers": nw, "files": nfl, "run": list(uniq.values())[idx][1],
-                                                    "first_unexplained_event": hs[idx][at - 1] if 0 < at <= len(hs[idx]) else None})
+                                                    "first_unexplained_event": hs[idx][at - 1] if 0 < at <= len(hs[idx]) else None,
+                                                    "unexplained_at": at, "events": hs[idx]})
         # C. option matrix
         nmods = 4 if tier == "quick" else 30
         vecs_all = []
